@@ -285,6 +285,56 @@ func c09Wide(c *core.Ctx) bool {
 		c.Violation("result-depends-on-order|mismatched-test-function", map[string]any{"schema": "{orders: Slice(Struct{sku}.TestFunc(asserts another type)), name: String().Min(5), email: String().Email()}", "distinct_results_over_40_runs": outs})
 		return false
 	}
+	// two body factories made by one helper, parsed side by side in one execution; sibling paths whose segments spell the same text;
+	// a json.RawMessage where a record is expected, next to a list of records with json tags
+	mkDoc := func(doc string) any { return zjson.Decode(strings.NewReader(doc)) }
+	type part struct {
+		Title string `json:"title"`
+	}
+	type two struct{ A, B part }
+	type author struct {
+		Name string `json:"full_name"`
+	}
+	type book struct {
+		Meta    part
+		Authors []author
+	}
+	outs = map[string]int{}
+	outs2 := map[string]int{}
+	outs3 := map[string]int{}
+	for i := 0; i < 40; i++ {
+		var d two
+		m := z.Struct(z.Schema{"a": z.Struct(z.Schema{"title": z.String().Required()}), "b": z.Struct(z.Schema{"title": z.String().Required().Min(4)})}).
+			Parse(map[string]any{"a": mkDoc(`{"title":"first"}`), "b": mkDoc(`{"title":"2nd"}`)}, &d)
+		outs[fmt.Sprintf("%+v [%s]", d, dKeys(m))]++
+		type acc struct {
+			Username string
+			Hostname string
+			User     struct{ Name string }
+			Host     struct{ Name string }
+		}
+		var a acc
+		m = z.Struct(z.Schema{"username": z.String().Min(9), "hostname": z.String().Min(9), "user": z.Struct(z.Schema{"name": z.String().Min(9)}), "host": z.Struct(z.Schema{"name": z.String().Min(9)})}).
+			Parse(map[string]any{"username": "u", "hostname": "h", "user": map[string]any{"name": "n"}, "host": map[string]any{"name": "m"}}, &a)
+		outs2[dKeys(m)]++
+		var bk book
+		m = z.Struct(z.Schema{"meta": z.Struct(z.Schema{"title": z.String()}), "authors": z.Slice(z.Struct(z.Schema{"name": z.String().Required()}))}).
+			Parse(map[string]any{"meta": json.RawMessage(`{"title":"t"}`), "authors": []any{map[string]any{"name": "Ann"}}}, &bk)
+		outs3[fmt.Sprintf("%+v [%s]", bk, dKeys(m))]++
+		c.Eval(3)
+	}
+	if len(outs) != 1 || outs["{A:{Title:first} B:{Title:2nd}} [b.title]"] != 40 {
+		c.Violation("result-depends-on-order|two-body-factories-in-one-execution", map[string]any{"schema": "{a: Struct{title: Required}, b: Struct{title: Required.Min(4)}}", "input": "a and b: zjson.Decode documents made by one helper ({title: first} / {title: 2nd})", "distinct_results_over_40_runs": outs, "want": "{A:{Title:first} B:{Title:2nd}} [b.title] every time"})
+		return false
+	}
+	if len(outs2) != 1 || outs2["host.name, hostname, user.name, username"] != 40 {
+		c.Violation("result-depends-on-order|sibling-paths-spelling-the-same-text", map[string]any{"schema": "{username, hostname, user: Struct{name}, host: Struct{name}} all String().Min(9)", "distinct_key_sets_over_40_runs": outs2})
+		return false
+	}
+	if len(outs3) != 1 {
+		c.Violation("result-depends-on-order|raw-message-next-to-tagged-records", map[string]any{"schema": "{meta: Struct{title}, authors: Slice(Struct{name: Required})} into struct{Meta{Title `json:title`}; Authors []{Name `json:full_name`}}", "input": "meta: json.RawMessage, authors: [{name: Ann}]", "distinct_results_over_40_runs": outs3})
+		return false
+	}
 	if o2, _ := dValidateNilEmbedded(20); len(o2) != 2 {
 		c.Violation("result-depends-on-order|Validate-with-a-nil-embedded-pointer", map[string]any{"schemas": "{Rev, By, title} and {Rev, DStamp: Ptr(Struct{Note: Required}), title} validating struct{ *DStamp(nil); Title }", "distinct_results_over_20_runs_each": o2})
 		return false
